@@ -14,6 +14,7 @@
 
 #include "aln_param.h"
 #include "aln_run.h"
+#include "kalign_verif.h"
 
 
 #ifdef HAVE_OPENMP
@@ -60,6 +61,7 @@ int kalign_run(struct msa *msa, int n_threads, int type, float gpo, float gpe, f
         }
         /* Make sure sequences are in order  */
         RUN(msa_sort_len_name(msa));
+        KV_EVENT(KV_CANON, msa, NULL, 0, 0, 0);
 
         /* Convert into internal representation  */
         if(msa->biotype == ALN_BIOTYPE_DNA){
@@ -86,6 +88,7 @@ int kalign_run(struct msa *msa, int n_threads, int type, float gpo, float gpe, f
 #endif
         /* Build guide tree */
         RUN(build_tree_kmeans(msa,&tasks));
+        KV_EVENT(KV_TASKS, msa, tasks, 0, 0, 0);
 
         /* Convert to full alphabet after having converted to reduced alphabet for tree building above  */
         if(msa->biotype == ALN_BIOTYPE_PROTEIN){
@@ -105,6 +108,7 @@ int kalign_run(struct msa *msa, int n_threads, int type, float gpo, float gpe, f
                            gpo,
                            gpe,
                            tgpe));
+        KV_EVENT(KV_PARAM, msa, ap, type, 0, 0);
 
 
         DECLARE_TIMER(t1);
